@@ -196,6 +196,11 @@ class DULServiceProvider(threading.Thread):
                 except IndexError:
                     continue
                 self.state_machine.action(evt)
+                if self.dimse_gen and self.state_machine.current_state not in (
+                        fsm.States.STA_6, fsm.States.STA_8):
+                    # the association can no longer carry data: forget the rest of the message
+                    self.dimse_gen.close()
+                    self.dimse_gen = None
         except Exception:
             self.to_service_user.put(pdu.AAbortPDU(source=0, reason_diag=0))
             raise
